@@ -99,13 +99,15 @@ func isPublic(fname string) bool {
 
 func getContextFromFilename(fname string) keystore.KeyContext {
 	if isHistoricalFilename(fname) {
-		fname = filepath.Dir(fname)
+		// rotated keys are kept in <key file name>.old/<timestamp> and share the context of the key file
+		fname = strings.TrimSuffix(filepath.Dir(fname), historyDirSuffix)
 	}
 	if fname == PoisonKeyFilename {
 		return keystore.NewKeyContext(keystore.PurposePoisonRecordKeyPair, []byte(fname))
 	}
 	if fname == getSymmetricKeyName(PoisonKeyFilename) {
-		return keystore.NewKeyContext(keystore.PurposePoisonRecordSymmetricKey, []byte(fname[:len(fname)-len("_sym")]))
+		// the keystore encrypts poison symmetric key with the full key name as context
+		return keystore.NewKeyContext(keystore.PurposePoisonRecordSymmetricKey, []byte(fname))
 	}
 	fname = filepath.Base(fname)
 	if strings.HasSuffix(fname, ".old") {
